@@ -108,6 +108,10 @@ def cval(t: T) -> Fraction:
     return t.args[0]
 
 
+def _by_id(t: "T") -> int:
+    return t.id
+
+
 def _num_sort(*ts: T) -> str:
     return "I" if all(t.sort == "I" for t in ts) else "R"
 
@@ -139,6 +143,7 @@ def add(a: T, b: T) -> T:
             c += cval(x)
         else:
             items.append(x)
+    items.sort(key=_by_id)  # AC-normal form: a+b and b+a are the same term
     if c != 0:
         items.append(_c(c, s))
     if not items:
@@ -194,6 +199,7 @@ def mul(a: T, b: T) -> T:
     c *= sign
     if c == 0:
         return _c(Fraction(0), s)
+    items.sort(key=_by_id)
     if c != 1:
         items.insert(0, _c(c, s))
     if len(items) == 1:
